@@ -133,6 +133,48 @@ def _state_crosscheck(ctx, db, kind):
                         break
 
 
+def case_twins(ctx, db, kind):
+    """Symbols of one quantity type that differ only in the case of their letters (mm / Mm, mg / Mg, mrad / Mrad) are different
+    units a million or a billion apart: every conversion *to* and *from* such a symbol - asked of the database and, under every
+    category of the type, of a quantity and of a Scalar - is the conversion of that very symbol: same number from every door,
+    and back again."""
+    from barril.units import ObtainQuantity, Scalar
+
+    n = 0
+    cbt = table.categories_by_type(db)
+    for qt, us in table.units_by_type(db).items():
+        low = {}
+        for u in us:
+            low.setdefault(u.lower(), []).append(u)
+        twins = [g for g in low.values() if len(g) > 1]
+        for g in twins:
+            for v in g:
+                for u in [us[0]] + [w for w in g if w != v]:
+                    if u == v:
+                        continue
+                    for x in (1.0, 2500.0, -0.004):
+                        try:
+                            ref = db.Convert(qt, u, v, x)
+                            back = db.Convert(qt, v, u, ref)
+                        except Exception:
+                            continue
+                        for c in cbt.get(qt, [])[:6]:
+                            ctx.ev()
+                            n += 1
+                            ctx.nt((kind, "case twins", qt, u, v))
+                            try:
+                                doors = {"Quantity.ConvertScalarValue": ObtainQuantity(u, c).ConvertScalarValue(x, v), "Quantity.Convert": ObtainQuantity(u, c).Convert(x, v), "Quantity.Convert(list)": ObtainQuantity(u, c).Convert([x], v)[0],
+                                         "Scalar.GetValue": Scalar(c, x, u).GetValue(v), "Scalar.CreateCopy(unit)": Scalar(c, x, u).CreateCopy(unit=v).GetValue(), "and back": Scalar(c, ref, v).GetValue(u)}  # fmt: skip
+                            except Exception as e:
+                                ctx.violation("%s:%s:%s->%s:case-twin-conversion-raised" % (kind, qt, u, v), {"category": c, "error": repr(e)[:200], "x": x, "db": kind})
+                                break
+                            wrong = {k: repr(val) for k, val in doors.items() if repr(val) != repr(back if k == "and back" else ref)}
+                            if wrong:
+                                ctx.violation("%s:%s:%s->%s:case-twin-converted-as-another-symbol" % (kind, qt, u, v), {"category": c, "database_says": repr(ref), "and_back": repr(back), "these_say": wrong, "x": x, "db": kind})
+                                break
+    ctx.count("%s: conversions to and from symbols that differ only in case" % kind, n)
+
+
 def self_conv(db, name, u, v, x):
     try:
         return db.Convert(name, u, v, x)
@@ -165,6 +207,8 @@ def run(ctx):
             aff = conv.describe(db)
             if ctx.shard == 0:
                 _state_crosscheck(ctx, db, kind)
+            if ctx.shard == 1 % ctx.nshards and kind == "posc":
+                case_twins(ctx, db, kind)
             P = Pair(ctx, db, kind, aff)
             work = []
             for qt, us in table.units_by_type(db).items():
